@@ -75,8 +75,56 @@ def prop_file_available(recoverable, nlocs, valid, broken) -> bool:
     return got == want
 
 
+def prop_composite_available(kind: int, n: int, flags, nested: bool) -> bool:
+    """ListToken / ObjectToken .is_available == every element is available (an EMPTY list or object has
+    lost nothing: available). Elements are plain Tokens whose availability is their recoverable flag; with
+    `nested` the first element is itself a (one-element) list holding that token."""
+    from lib.detloop import DetLoop
+    from lib.stubs import StubContext
+    from streamflow.core.workflow import Token
+    from streamflow.workflow.token import ListToken, ObjectToken
+
+    if Token(value=1, tag="0", recoverable=True).recoverable is not True:
+        return False
+    k = 0
+    for i in range(4):
+        if n == i:
+            k = i
+    elems = [Token(value=i, tag="0", recoverable=True if flags[i] else False) for i in range(k)]
+    if nested and k > 0:
+        elems[0] = ListToken(value=[elems[0]], tag="0")
+    tok = ListToken(value=elems, tag="0") if kind == 0 else ObjectToken(value={"k" + str(i): e for i, e in enumerate(elems)}, tag="0")
+    ctx = StubContext()
+    with DetLoop() as loop:
+        got = loop.run_until_complete(tok.is_available(ctx))
+    want = True
+    for i in range(k):
+        if not flags[i]:
+            want = False
+    return got is want
+
+
+T_COMP = ("streamflow.workflow.token.ListToken.is_available", "streamflow.workflow.token.ObjectToken.is_available", "streamflow.core.workflow.Token.is_available")
+
+
 def file_specs(tier):
-    out = []
+    out = [
+        Spec(
+            name="composite_available",
+            group="FILE: list / object tokens are available iff every element is (an empty one is available)",
+            source=mk_source(
+                "from harness.C18_file import *",
+                "kind: int, n: int, f0: bool, f1: bool, f2: bool, nested: bool",
+                ["0 <= kind <= 1", "0 <= n <= 3"],
+                "prop_composite_available(kind, n, [f0, f1, f2], nested)",
+            ),
+            cond=600,
+            path=60,
+            bound="ListToken or ObjectToken with 0..3 elements (plain Tokens, availability = recoverable flag, symbolic per element; optionally the first element wrapped in a one-element ListToken)",
+            symbolic="kind, length, 3 availability flags, nesting flag",
+            targets=T_COMP,
+        )
+    ]
     for npaths in (1,) if tier == "quick" else (1, 2):
         names = []
         params = ["rec: bool"]
